@@ -148,6 +148,7 @@ class World:
         tpm.fault = self.fault
         self.kc = KeychainSqlite3(self.db, tpm)
         self.kc.conn = ConnProxy(self.kc.conn, self.fault)
+        self.handles = {}         # Identity objects the application obtained earlier and still holds (they outlive deletions)
 
     def reopen(self, clean=True):
         try:
@@ -424,6 +425,35 @@ def apply_op(w, model, st_, op):
         return 'ok', lambda m, d: None if (nb in m and m[nb]['default_key'] is not None and
                                            m[nb]['keys'][m[nb]['default_key']]['default_cert'] is not None) \
             else 'touched identity has no default key / certificate'
+    armed_at, w.fault.at = w.fault.at, None        # (the harness's own look-ups are not part of the operation under fault)
+    for i_ in ids:
+        if i_ not in w.handles:
+            try:
+                w.handles[i_] = kc[Name.from_bytes(i_)]
+            except Exception:
+                pass
+    w.fault.at = armed_at
+    if k == 'new_key' and op.get('via_handle') and w.handles:
+        # through an Identity object obtained earlier - possibly before that identity was deleted (and re-created): the owner
+        # is the identity of that NAME now, or there is none (KeyError); never some other identity
+        hs = sorted(w.handles)
+        idn = hs[op['i'] % len(hs)]
+        try:
+            key = w.handles[idn].new_key(op['type'])
+        except KeyError:
+            if idn in model:
+                raise
+            return 'expected-error', None
+        if idn not in model:
+            return 'key-created-through-handle-of-deleted-identity', None
+        kn = Name.to_bytes(key.name)
+        cl = [Name.to_bytes(n) for n in key]
+        model[idn]['keys'][kn] = {'bits': bytes(key.key_bits), 'certs': {c: bytes(key[c].data) for c in cl},
+                                  'default_cert': cl[0] if cl else None}
+        if model[idn]['default_key'] is None:
+            model[idn]['default_key'] = kn
+        st_['keytype'][kn] = op['type']
+        return 'ok', None
     if k == 'new_key':
         if not ids:
             return 'skip', None
@@ -595,6 +625,20 @@ def _run(w, case, r):
             trace.append('R')
             if had_delete:
                 flags.add('delete-then-reopen')
+        elif k == 'warm_signers':
+            # the application obtains MANY distinct signers (one key, n different explicit key locators): more than a small
+            # signer cache holds
+            keys_now = [(idn, kn) for idn, i in sorted(model.items()) for kn in sorted(i['keys']) if i['keys'][kn]['default_cert']]
+            if keys_now and not st_.get('dirty'):
+                idn, kn = keys_now[op['t'] % len(keys_now)]
+                for j in range(op['n']):
+                    try:
+                        w.kc.get_signer({'key': Name.from_bytes(kn), 'key_locator': nm(['locator', str(100 + j)])})
+                    except Exception as e:
+                        r.bad(f'C15/signer/raised/many-locators/{type(e).__name__}', f'{e!r} at locator {j}')
+                        return
+                flags.add('many-signers')
+                trace.append('w')
         elif k == 'get_signer':
             check_signer(w, model, st_['default_id'], op, r, st_['deleted_keys'])
             trace.append('g')
@@ -752,6 +796,7 @@ def _op():
         st.fixed_dictionaries({'op': st.just('touch_identity'), 'i': i}),
         st.fixed_dictionaries({'op': st.just('new_key'), 'i': i, 'type': st.sampled_from(['ec', 'ec', 'ec', 'rsa']),
                                'key_id': st.one_of(st.none(), st.integers(0, 3))}),
+        st.fixed_dictionaries({'op': st.just('new_key'), 'i': i, 'type': st.just('ec'), 'key_id': st.none(), 'via_handle': st.just(True)}),
         st.fixed_dictionaries({'op': st.just('import_cert'), 't': i, 'n': st.integers(0, 3)}),
         st.fixed_dictionaries({'op': st.just('set_default_identity'), 'i': i}),
         st.fixed_dictionaries({'op': st.just('set_default_key'), 't': i}),
@@ -784,6 +829,9 @@ def _template():
                 {'op': 'new_key', 'i': tt, 'type': 'ec', 'key_id': draw(st.integers(0, 1))},
                 {'op': 'get_signer', 't': tt, 'form': form, 'kl': kl}]
         pre = [{'op': 'touch_identity', 'i': 0}, {'op': 'new_key', 'i': 0, 'type': 'ec', 'key_id': draw(st.integers(0, 1))}]
+        if draw(st.booleans()):
+            # ... with many other signers obtained in between
+            core.insert(1, {'op': 'warm_signers', 't': draw(st.integers(0, 3)), 'n': draw(st.sampled_from([33, 40, 63, 70, 130]))})
         return pre + draw(st.lists(_op(), max_size=3)) + core + draw(st.lists(_op(), max_size=3))
     return t()
 
